@@ -89,6 +89,10 @@ def directed_runs():
     # _minimize sees a different coverage and takes the restore path
     runs.append({"sut": "queue_", "algorithm": "RANDOM", "seed": 831077, "iterations": 4, "assertion_generation": "SIMPLE", "strategy": "SUITE",
                  "direction": "FORWARD", "coverage_metrics": ["BRANCH", "LINE"]})
+    # same mechanism under CASE: `deposit(422)` is removed because `rate()` then covers the *other* branch of `balance > 100`
+    # (same per-test coverage value); no other test covers the lost branch and the post-check reads the cached 1.0
+    runs.append({"sut": "account", "algorithm": "DYNAMOSA", "seed": 168789, "iterations": 6, "assertion_generation": "SIMPLE", "strategy": "CASE",
+                 "direction": "BACKWARD"})
     return runs
 
 
@@ -172,7 +176,12 @@ def evaluate(ctx, run, ev, tag):
             c.update({"function": name, "before": before, "after": after, "cached_after": (ev.get("cached_after") or {}).get(name),
                       "after_timeouts": ca.get(name + ":timeouts")})
             how = "dropped" if after < before else "increased"
-            ctx.witness(f"coverage-{how}:{strategy_cls}",
+            if how == "dropped" and ev["before"] and not ev["after"]:
+                # every test was minimised away: an empty suite has no execution result, hence not even the import coverage
+                strategy_cls_key = "suite-minimised-to-empty"
+            else:
+                strategy_cls_key = strategy_cls
+            ctx.witness(f"coverage-{how}:{strategy_cls_key}",
                         f"[{tag}] {name}: {before} before minimisation, {after} after (recomputed from scratch; the pipeline's cached value afterwards is {c['cached_after']})", c)
         cached = (ev.get("cached_after") or {}).get(name)
         if isinstance(cached, (int, float)) and not math.isclose(cached, after, rel_tol=1e-9, abs_tol=1e-12):
